@@ -264,7 +264,33 @@ def library_after_timeout(task, col):
                                         [mx.Node([0, 1, 2], repeated_allowed=False) for _ in range(nt)])
         g = mx.AggregateAssignmentMatrixGenerator(settings())
         g.reset_agg_matrix_cache()
-        limit = rnd.choice([.01, .03, .08])
+        slow_write = rep % 2 == 1
+        real_pickle = mx.pickle
+        if slow_write:
+            # the limit expires while the limited call is WRITING its on-disk cache (what a loaded machine does by
+            # chance): half of the bytes, then a pause longer than the limit, then the rest
+            ns, nt = 3, 3
+            g = mx.AggregateAssignmentMatrixGenerator(settings())
+            g.reset_agg_matrix_cache()
+            limit = .6
+
+            class SlowPickle:
+                def __getattr__(self, name):
+                    return getattr(real_pickle, name)
+
+                @staticmethod
+                def dump(obj, fp, *a, **kw):
+                    data = real_pickle.dumps(obj)
+                    fp.write(data[:len(data) // 2])
+                    fp.flush()
+                    t_end = time.time() + 2.
+                    while time.time() < t_end:     # (short sleeps: the asynchronous interrupt needs bytecode to land on)
+                        time.sleep(.01)
+                    fp.write(data[len(data) // 2:])
+            mx.pickle = SlowPickle()
+            col.count('library_slow_write_calls')
+        else:
+            limit = rnd.choice([.01, .03, .08])
         outcome = 'return'
         try:
             run_timeout(limit, g.count_all_matrices)
@@ -272,6 +298,8 @@ def library_after_timeout(task, col):
             outcome = 'timeout'
         except Exception as e:  # noqa
             outcome = 'exc:' + type(e).__name__
+        finally:
+            mx.pickle = real_pickle
         col.count('library_outcome_' + outcome)
         try:
             n_tup_after = sum(1 for _ in mx.AggregateAssignmentMatrixGenerator(settings()).iter_n_sources_targets())
@@ -287,9 +315,9 @@ def library_after_timeout(task, col):
             info = D.exc_info(e)
             col.violation('later_call_affected', {'library': 'count_all_matrices', 'n_src': ns, 'n_tgt': nt},
                           {'exc': info, 'first_call': outcome, 'limit': limit}, [],
-                          where={'kind': 'library', 'exc': info['type']})
+                          where={'kind': 'library', 'exc': info['type'], 'slow_write': slow_write})
             continue
-        col.nontrivial.add('library|%s|%d' % (outcome, ns * nt))
+        col.nontrivial.add('library|%s|%d|%s' % (outcome, ns * nt, slow_write))
         if (n_tup_after, c_same, c_fresh) != (n_tup_ref, c_ref, c_ref):
             col.violation('later_call_affected', {'library': 'count_all_matrices', 'n_src': ns, 'n_tgt': nt},
                           {'first_call': outcome, 'limit': limit, 'tuples_after': n_tup_after, 'tuples_reference': n_tup_ref,
